@@ -145,6 +145,24 @@ func keyCases(r *rand.Rand, wrap func(keys A) interface{}) []pcase {
 	mut("key-missing-type", func(k M) { delete(k, "type") })
 	mut("key-both-materials", func(k M) { k["publicKeyJwk"] = validJWK(r); k["publicKeyBase58"] = "abc" })
 	mut("key-no-material", func(k M) { delete(k, "publicKeyJwk"); delete(k, "publicKeyBase58") })
+	// both material members present, one of them holding nothing usable: still two members
+	for _, lv := range []struct {
+		label string
+		v     interface{}
+	}{{"null", nil}, {"empty-string", ""}, {"number", 7.0}, {"array", A{}}, {"object", M{}}} {
+		v := lv.v
+		mut("key-both-materials-base58-"+lv.label, func(k M) {
+			k["type"] = "JsonWebKey2020"
+			k["publicKeyJwk"] = validJWK(r)
+			k["publicKeyBase58"] = v
+		})
+		mut("key-both-materials-jwk-"+lv.label, func(k M) {
+			k["type"] = "Ed25519VerificationKey2018"
+			delete(k, "purposes")
+			k["publicKeyBase58"] = "GY4GunSXBPBfhLCzDL7iGmP5dR3sBDCJZkkaGK8VgYQf"
+			k["publicKeyJwk"] = v
+		})
+	}
 	mut("key-unknown-member", func(k M) { k[[]string{"controller", "publicKeyMultibase", "x"}[r.Intn(3)]] = "v" })
 	mut("key-purposes-empty", func(k M) { k["purposes"] = A{} })
 	mut("key-purposes-not-array", func(k M) { k["purposes"] = "authentication" })
@@ -238,6 +256,17 @@ func keyCases(r *rand.Rand, wrap func(keys A) interface{}) []pcase {
 	kd := copyM(k2)
 	kd["id"] = k1["id"]
 	out = append(out, pcase{"key-duplicate-id", wrap(A{k1, kd}), false})
+	// the same id twice, for every combination of key material kinds and at a distance
+	b58 := func(id string) M {
+		return M{"id": id, "type": "Ed25519VerificationKey2018", "publicKeyBase58": "GY4GunSXBPBfhLCzDL7iGmP5dR3sBDCJZkkaGK8VgYQf"}
+	}
+	jwk := func(id string) M { return M{"id": id, "type": "JsonWebKey2020", "publicKeyJwk": validJWK(r)} }
+	out = append(out, pcase{"key-duplicate-id-base58-base58", wrap(A{b58("dup"), b58("dup")}), false},
+		pcase{"key-duplicate-id-base58-jwk", wrap(A{b58("dup"), jwk("dup")}), false},
+		pcase{"key-duplicate-id-jwk-base58", wrap(A{jwk("dup"), b58("dup")}), false},
+		pcase{"key-duplicate-id-jwk-jwk", wrap(A{jwk("dup"), jwk("dup")}), false},
+		pcase{"key-duplicate-id-first-and-last-of-four", wrap(A{b58("dup"), jwk("o1"), b58("o2"), jwk("dup")}), false},
+		pcase{"key-four-distinct-mixed", wrap(A{b58("d1"), jwk("d2"), b58("d3"), jwk("d4")}), true})
 	// full allowed matrix: single purpose per allowed pair
 	for _, ty := range allKeyTypes {
 		for _, p := range allPurposes {
